@@ -1128,4 +1128,41 @@ impl VersionSet {
     pub(crate) fn verif_next_file_number(&self) -> u64 {
         self.curr_file_number + 1
     }
+
+    /// Run the real `Version::finalize` and `VersionSet::pick_compaction` on a synthetic version
+    /// (`files[level]` in the order the version keeps them) with the given compaction pointers.
+    /// Returns the level and whether the score calls for a size compaction, and what
+    /// `pick_compaction` selected: (level, numbers of the level files, numbers of the parent files).
+    #[allow(clippy::type_complexity)]
+    pub(crate) fn verif_pick_probe(
+        options: &DbOptions,
+        table_cache: &Arc<TableCache>,
+        files: Vec<Vec<Arc<FileMetadata>>>,
+        pointers: Vec<Option<InternalKey>>,
+    ) -> (usize, bool, Option<(usize, Vec<u64>, Vec<u64>)>) {
+        let mut version_set = VersionSet::new(options.clone(), Arc::clone(table_cache));
+        let mut version = Version::new(options.clone(), table_cache, 0, 0);
+        for (level, level_files) in files.into_iter().enumerate().take(MAX_NUM_LEVELS) {
+            version.files[level] = level_files;
+        }
+        version.finalize();
+        let (level, score) = {
+            let metadata = version.get_size_compaction_metadata().unwrap();
+            (metadata.compaction_level, metadata.compaction_score)
+        };
+        version_set.append_new_version(version);
+        for (level, pointer) in pointers.into_iter().enumerate().take(MAX_NUM_LEVELS) {
+            version_set.compaction_pointers[level] = pointer;
+        }
+        let numbers =
+            |files: &[Arc<FileMetadata>]| files.iter().map(|file| file.file_number()).collect();
+        let picked = version_set.pick_compaction().map(|manifest| {
+            (
+                manifest.level(),
+                numbers(manifest.get_compaction_level_files()),
+                numbers(manifest.get_parent_level_files()),
+            )
+        });
+        (level, score >= 1., picked)
+    }
 }
